@@ -136,7 +136,7 @@ theorem open_header_is_recorded (E : XExt) (s : Store) (hdrs : List FileHdr) (fi
   obtain ⟨rfl, rfl⟩ := ho
   simp [chainFiles, hfiles]
 
-/-- **reap_never_launders.** A reap that consolidates (and therefore writes a fresh
+/-- **reap_never_launders.** A reap that consolidates WAL files (and therefore writes a fresh
 checksum) only does so after every file it consumes matched its recorded checksum at that
 moment; with a stale good verdict and a file corrupted since, the reap refuses. -/
 theorem reap_never_launders (E : XExt) (s : Store) (h : (reap E s).2 = .ok)
@@ -153,8 +153,11 @@ theorem reap_never_launders (E : XExt) (s : Store) (h : (reap E s).2 = .ok)
   rw [hch] at h
   split at h
   · rename_i e; rw [e] at hmany; simp at hmany
-  · rename_i e; rw [e] at hmany; simp at hmany
-  · rename_i db wals _ e
+  · rename_i db wals e
+    split at h
+    · cases h
+    split at h
+    · rename_i hw; rw [e, hw] at hmany; simp at hmany
     split at h
     · cases h
     rename_i hall
@@ -164,45 +167,75 @@ theorem reap_never_launders (E : XExt) (s : Store) (h : (reap E s).2 = .ok)
     have := (List.all_eq_true.1 hall') f hf
     simpa [fileCrcOk, hs] using this
 
+/-- the conditions under which a reap consolidates, and what it leaves -/
+theorem reap_ok_cases (E : XExt) (s : Store) (h : (reap E s).2 = .ok) (hmany : 2 ≤ (chainFiles s).length) :
+    ∃ db wals, chainFiles s = db :: wals ∧ wals ≠ [] ∧ (ensureVerified E s).2 = true ∧
+      scanOk E s.files = true ∧ ¬ snapCount s.files ≤ 1 ∧ (db :: wals).all (fileCrcOk E) = true := by
+  have hfiles : (ensureVerified E s).1.files = s.files := (ensure_sets_verdict E s).2
+  have hch : chainFiles (ensureVerified E s).1 = chainFiles s := by simp [chainFiles, hfiles]
+  unfold reap at h
+  simp only at h
+  split at h
+  · cases h
+  rename_i h1
+  split at h
+  · cases h
+  rename_i h2
+  rw [hch] at h
+  split at h
+  · rename_i e; rw [e] at hmany; simp at hmany
+  · rename_i db wals e
+    split at h
+    · cases h
+    rename_i h3
+    split at h
+    · rename_i hw; rw [e, hw] at hmany; simp at hmany
+    rename_i h4
+    split at h
+    · cases h
+    rename_i hall
+    rw [hfiles] at h2 h3
+    exact ⟨db, wals, e, h4, by simpa using h1, by simpa using h2, h3, by simpa using hall⟩
+
 /-- what a successful consolidating reap leaves: one database whose sidecar is the checksum
 of exactly the bytes written -/
 theorem reap_result_consistent (E : XExt) (s : Store) (h : (reap E s).2 = .ok)
     (hmany : 2 ≤ (chainFiles s).length) :
-    checkOk E (reap E s).1.files = true ∨ ∃ f, (reap E s).1.files = [f] ∧ f.side = .crc (E.crc f.content) := by
+    ∃ f, (reap E s).1.files = [f] ∧ f.side = .crc (E.crc f.content) := by
+  obtain ⟨db, wals, e, hw, hv, hsc, hcnt, hall⟩ := reap_ok_cases E s h hmany
   have hfiles : (ensureVerified E s).1.files = s.files := (ensure_sets_verdict E s).2
   have hch : chainFiles (ensureVerified E s).1 = chainFiles s := by simp [chainFiles, hfiles]
-  unfold reap at h ⊢
-  simp only at h ⊢
-  split at h
-  · cases h
-  split at h
-  · cases h
-  rename_i h1 h2
-  simp only [h1, h2, if_false, Bool.false_eq_true]
-  rw [hch] at h ⊢
-  split at h
-  · rename_i e; rw [e] at hmany; simp at hmany
-  · rename_i e; rw [e] at hmany; simp at hmany
-  · rename_i db wals _ e
-    split at h
-    · cases h
-    rename_i hall
-    right
-    simp only [e, hall, if_false, Bool.false_eq_true]
-    exact ⟨_, rfl, rfl⟩
+  refine ⟨{ content := E.replay db.content (wals.map (·.content)),
+            side := .crc (E.crc (E.replay db.content (wals.map (·.content)))), isDb := true, snap := db.snap }, ?_, rfl⟩
+  unfold reap
+  simp only [hv, hfiles, hsc, hch, e, hcnt, hw, hall, Bool.not_true, Bool.false_eq_true, if_false]
+
+/-- a store with a single snapshot directory is never rewritten by a reap -/
+theorem reap_single_snapshot_noop (E : XExt) (s : Store) (h1 : snapCount s.files ≤ 1) :
+    (reap E s).2 ≠ .ok := by
+  have hfiles : (ensureVerified E s).1.files = s.files := (ensure_sets_verdict E s).2
+  unfold reap
+  simp only
+  split
+  · simp
+  split
+  · simp
+  split
+  · simp
+  · rw [hfiles]; simp [h1]
 
 /-! ### non-vacuity -/
 def exE : XExt := { crc := fun b => (b.map (·.toNat)).sum, validDb := fun _ => true, validWal := fun _ => true,
                     replay := fun d ws => d ++ ws.flatten }
 
 example :
-    let good : Store := { files := [⟨[1, 2], .crc 3, true, true⟩, ⟨[4], .crc 4, false, true⟩] }
-    let bad : Store := { files := [⟨[1, 3], .crc 3, true, true⟩, ⟨[4], .crc 4, false, true⟩] }
+    let good : Store := { files := [⟨[1, 2], .crc 3, true, true, 0⟩, ⟨[4], .crc 4, false, true, 1⟩] }
+    let bad : Store := { files := [⟨[1, 3], .crc 3, true, true, 0⟩, ⟨[4], .crc 4, false, true, 1⟩] }
     (consume exE good .open).2 = true ∧ (consume exE bad .open).2 = false ∧
     (consume exE bad .reap).2 = false ∧ (reap exE good).2 = .ok ∧
     -- late corruption: verified, then altered, then opened: a stream is produced but the receiver refuses
     (let s1 := (ensureVerified exE good).1
-     let s2 : Store := { s1 with files := [⟨[1, 9], .crc 3, true, true⟩, ⟨[4], .crc 4, false, true⟩] }
+     let s2 : Store := { s1 with files := [⟨[1, 9], .crc 3, true, true, 0⟩, ⟨[4], .crc 4, false, true, 1⟩] }
      (openNewest exE s2).2 = some ([⟨2, 3⟩, ⟨1, 4⟩], [[1, 9], [4]]) ∧
      receiverAccepts exE [⟨2, 3⟩, ⟨1, 4⟩] [[1, 9], [4]] = false ∧ (reap exE s2).2 = .err) := by decide
 
